@@ -394,9 +394,46 @@ def classify(ctx, rejected, label):
     return why
 
 
-def validate(ctx, prop, cases, label, masked_ids=()):
-    """Validate recordings; report every rejection with the deviation flags that explain it."""
-    rej, res = accept(ctx, [slim(c) for c in cases], label)
+def corruptions(cases, want):
+    """Corrupted copies of recordings: one snapshot owner altered / one `start` line dropped.  Returns
+    (corrupted cases, {corrupted id: (base id, line at which TLC must reject it)})."""
+    bad, expect = [], {}
+    for c in cases:
+        if len(bad) >= 2 * want:
+            break
+        tr = c["trace"]
+        snaps = [i for i, ln in enumerate(tr) if ln["k"] == "snap" and any(v != "-" for d in ln["owner"].values() for v in d.values())]
+        starts = [i for i, ln in enumerate(tr) if ln["k"] == "start"]
+        if not snaps or not starts:
+            continue
+        i = snaps[0]
+        c2 = {"id": "corrupt-owner/" + c["id"], "flags": [], "trace": copy.deepcopy(tr)}
+        ow = c2["trace"][i]["owner"]
+        cc, nn = [(a, b) for a in sorted(ow) for b in sorted(ow[a]) if ow[a][b] != "-"][0]
+        ow[cc][nn] = "-"
+        bad.append(c2)
+        expect[c2["id"]] = (c["id"], i + 1)
+        j = starts[0]
+        bad.append({"id": "corrupt-drop/" + c["id"], "flags": [], "trace": tr[:j] + tr[j + 1:]})
+        expect[bad[-1]["id"]] = (c["id"], j + 1)
+    return bad, expect
+
+
+def validate(ctx, prop, cases, label, masked_ids=(), selftest_want=0):
+    """Validate recordings (one TLC batch, which also carries the corruption self-test: an accepted
+    recording with one snapshot owner altered / one line dropped must be rejected at exactly that line);
+    report every rejection with the deviation flags that explain it."""
+    bad, expect = corruptions([c for c in cases if c["id"] in masked_ids] + [c for c in cases if c["id"] not in masked_ids],
+                              selftest_want) if selftest_want else ([], {})
+    rej, res = accept(ctx, [slim(c) for c in cases] + bad, label)
+    if selftest_want:
+        checked = {i: (b, ln) for i, (b, ln) in expect.items() if b not in rej}
+        wrong = [(i, rej.get(i), ln) for i, (b, ln) in checked.items() if rej.get(i) != ln]
+        if wrong:
+            raise MachineryFailure("selftest: corrupted recordings not rejected at the corrupted line: %s" % wrong[:3])
+        if len(checked) < 4:
+            raise MachineryFailure("selftest: only %d corruptions of accepted recordings" % len(checked))
+        ctx.cov["selftest_corruptions_rejected_at_line"] = ctx.cov.get("selftest_corruptions_rejected_at_line", 0) + len(checked)
     ctx.cov["traces_validated_against_impl"] += len(cases)
     ctx.cov["trace_lines"] = ctx.cov.get("trace_lines", 0) + sum(len(c["trace"]) for c in cases)
     rejected = [c for c in cases if c["id"] in rej]
@@ -416,40 +453,6 @@ def validate(ctx, prop, cases, label, masked_ids=()):
                        {"scn": c["scn"], "rejected_at_line": rej[c["id"]], "line": ln, "flags": why[c["id"]],
                         "trace": c["trace"]})
     return rej, why, nmask
-
-
-# ------------------------------------------------------------------------------------------------
-# corruption self-test: an accepted recording with one snapshot owner altered / one line dropped
-# must be rejected at exactly that line
-def selftest(ctx, accepted, want=24):
-    bad = []
-    expect = {}
-    for c in accepted:
-        if len(bad) >= 2 * want:
-            break
-        tr = c["trace"]
-        snaps = [i for i, ln in enumerate(tr) if ln["k"] == "snap" and any(v != "-" for d in ln["owner"].values() for v in d.values())]
-        starts = [i for i, ln in enumerate(tr) if ln["k"] == "start"]
-        if not snaps or not starts:
-            continue
-        i = snaps[0]
-        c2 = {"id": "corrupt-owner/" + c["id"], "flags": [], "trace": copy.deepcopy(tr)}
-        ow = c2["trace"][i]["owner"]
-        cc, nn = [(a, b) for a in sorted(ow) for b in sorted(ow[a]) if ow[a][b] != "-"][0]
-        ow[cc][nn] = "-"
-        bad.append(c2)
-        expect[c2["id"]] = i + 1
-        j = starts[0]
-        c3 = {"id": "corrupt-drop/" + c["id"], "flags": [], "trace": tr[:j] + tr[j + 1:]}
-        bad.append(c3)
-        expect[c3["id"]] = j + 1
-    if len(bad) < 4:
-        raise MachineryFailure("selftest: nothing to corrupt")
-    rej, _ = accept(ctx, bad, "corrupt")
-    wrong = [(i, rej.get(i), expect[i]) for i in expect if rej.get(i) != expect[i]]
-    if wrong:
-        raise MachineryFailure("selftest: corrupted recordings not rejected at the corrupted line: %s" % wrong[:3])
-    ctx.cov["selftest_corruptions_rejected_at_line"] = len(bad)
 
 
 # ------------------------------------------------------------------------------------------------
